@@ -298,3 +298,15 @@ Example ex_cap :
   iter_collect 6 ex_t (TgPath 47 4) (iter_default 2) =
     [IItem (ItOk (RdText [47; 97]%N) 1 true); IItem (ItErr 1); IItem (ItOk (RdText [47; 98]%N) 1 true); IDone].
 Proof. vm_compute. split; reflexivity. Qed.
+
+(* C16: the loop of NodeIter::next never runs out of its iteration budget (the model's IPanic), for
+   any target, any depth limit and any writable root: no item of a whole iteration is IPanic *)
+Theorem iter_no_panic t tg D' p c : NoPanic.wf t -> small t ->
+  descend (pshape (tg_fail tg) t []) p = Some c ->
+  ~ In IPanic (iter_collect (S (S (length (enum D' c)))) t tg
+                 {| i_idx := p ++ zeros D'; i_root := length p; i_depth := length p + D' + 1 |}).
+Proof.
+  intros Hw Hs Hd. rewrite (iter_rooted_cap t tg Hw Hs D' p c Hd). intros Hin.
+  apply in_app_or in Hin as [Hin|[Hin|[]]]; [|discriminate].
+  apply in_map_iff in Hin as (q & Hq & _). unfold expect_cap in Hq. discriminate.
+Qed.
